@@ -217,4 +217,35 @@ static void dh_pool(int J, dh_worker_fn fn, void *arg, dh_stats_t *total)
     }
     munmap(slots, sizeof(dh_slot_t) * 64);
 }
+
+/* run fn(arg) in a forked child of the calling (single-threaded) worker. Returns 0 = fn returned 0, 1 = fn returned
+ * non-zero, 2 = the child died on a signal (*sig), 3 = no progress (beat of the shared slot) for 0.6*hang_s seconds.
+ * The child's stderr goes to a scratch file whose most telling line (an assertion message if any) is returned in err. */
+static int dh_isolated(int (*fn)(void *), void *arg, double hang_s, char *err, size_t cap, int *sig)
+{
+    char path[800]; snprintf(path, sizeof(path), "%s/tmp-%s-w%d.err", dh_outdir, dh_property, dh_worker_id);
+    mkdir(dh_outdir, 0777);
+    fflush(stdout); fflush(stderr); err[0] = 0; *sig = 0;
+    pid_t pid = fork();
+    if (pid < 0) { perror("fork"); return 2; }
+    if (pid == 0) {
+        int fd = open(path, O_WRONLY | O_CREAT | O_TRUNC, 0644); if (fd >= 0) { dup2(fd, 2); close(fd); }
+        int r = fn(arg); fflush(stdout); fflush(stderr); _exit(r ? 1 : 0);
+    }
+    long lb = dh_slot->beat; double lt = dh_now(); int status = 0, rc; long nap = 20000;
+    for (;;) {
+        pid_t w = waitpid(pid, &status, WNOHANG);
+        if (w == pid) break;
+        if (dh_slot->beat != lb) { lb = dh_slot->beat; lt = dh_now(); }
+        else if (dh_now() - lt > 0.6 * hang_s) { kill(pid, SIGKILL); waitpid(pid, &status, 0); dh_slot->beat++; unlink(path); return 3; }
+        struct timespec ts = { 0, nap }; nanosleep(&ts, NULL); if (nap < 4000000) nap += nap / 2;
+    }
+    if (WIFEXITED(status)) rc = WEXITSTATUS(status) ? 1 : 0; else { rc = 2; *sig = WIFSIGNALED(status) ? WTERMSIG(status) : -1; }
+    if (rc) {
+        FILE *f = fopen(path, "r");
+        if (f) { char line[600]; while (fgets(line, sizeof(line), f)) { size_t n = strlen(line); if (n && line[n - 1] == '\n') line[n - 1] = 0; if (!err[0] || strstr(line, "Assertion")) snprintf(err, cap, "%s", line); if (strstr(line, "Assertion")) break; } fclose(f); }
+    }
+    unlink(path);
+    return rc;
+}
 #endif
